@@ -10,7 +10,11 @@
 (*    design-level counter-example never stops the enumeration;            *)
 (*  - one JSON line per distinct state is printed for the replay.          *)
 (***************************************************************************)
-EXTENDS DocBuilder, Universe, Parser, Props, Json
+EXTENDS DocSeeds, Universe, Naming, Props, Json
+
+(* TLC orders record fields by the order in which their names were first seen: the
+   tag field k of JSON values must come before v (see JsonValue.tla) *)
+LOCAL InternOrderKV == [k |-> 0, v |-> 0]
 
 CONSTANTS WithUnsupported     \* C20: also insert unsupported keywords
 
@@ -33,62 +37,7 @@ SimNext == /\ Spend
               IN doc' \in ExtAt(doc, p, MaxDepth)
 SimSpec == Init /\ [][SimNext]_vars
 
-(***************************************************************************)
-(* Interaction-rich seed documents: the same builder actions are also      *)
-(* explored from these (INIT InitSeeds, bounded by TLCGet("level")), so    *)
-(* that the neighbourhoods where several keywords interact (declared x     *)
-(* pattern x additional properties, tuple items x additionalItems x        *)
-(* contains, composition with siblings, objects under anyOf) are covered   *)
-(* exhaustively one or two insertions deep even in the quick tier.         *)
-(***************************************************************************)
 CONSTANT SeedLevels
-LOCAL Sch(r) == [sch |-> TRUE] @@ r
-LOCAL Ty(t) == [sch |-> TRUE, type |-> t]
-Seeds == {
-  Sch([properties |-> << <<"a", Sch([default |-> JInt(1)])>>, <<"class", Ty("string")>> >>,
-       patternProperties |-> << <<"^a", Ty("integer")>>, <<"^c", Empty>> >>,
-       additionalProperties |-> FalseS]),
-  Sch([type |-> "object", title |-> "T",
-       properties |-> << <<"a", Ty("integer")>>, <<"b", Sch([default |-> JStr("")])>> >>,
-       required |-> <<"a", "b">>]),
-  Sch([itemsT |-> << Ty("integer"), Ty("string") >>, additionalItems |-> FalseS,
-       contains |-> Sch([const |-> JInt(1)])]),
-  Sch([type |-> "integer",
-       oneOf |-> << Sch([minimum |-> JInt(1)]), Sch([maximum |-> JInt(2)]) >>,
-       anyOf |-> << Sch([multipleOf |-> JInt(2)]), Sch([const |-> JInt(3)]) >>])
-    @@ ("not" :> Sch([const |-> JInt(4)])),
-  Sch([anyOf |-> <<
-         Sch([type |-> "object", properties |-> << <<"a", Ty("string")>> >>, required |-> <<"a">>]),
-         Sch([type |-> "object",
-              properties |-> << <<"a", Ty("integer")>>, <<"b", Empty>> >>]) >>]),
-  Sch([types |-> <<"object", "null">>,
-       properties |-> << <<"a", Sch([types |-> <<"integer", "number">>])>> >>,
-       depsL |-> << <<"a", <<"b">> >>, <<"class", <<"a">> >> >>,
-       depsS |-> << <<"b", Sch([required |-> <<"a">>])>> >>]),
-  Sch([type |-> "array", items |-> Sch([type |-> "number", default |-> JInt(0)]),
-       uniqueItems |-> TRUE, default |-> JArr(<<JInt(1)>>)]),
-  Sch([properties |-> << <<"a", Sch([type |-> "object", title |-> "T",
-                                     properties |-> << <<"class", Sch([default |-> JBool(FALSE)])>> >>])>> >>,
-       propertyNames |-> Sch([pattern |-> "^a"])]),
-  (* equally titled, structurally different objects at many positions of one schema
-     (class-name de-duplication depends on the order in which positions are parsed) *)
-  Sch([anyOf |-> << Sch([type |-> "object", title |-> "Thing", minProperties |-> 1]) >>,
-       oneOf |-> << Sch([type |-> "object", title |-> "Thing", minProperties |-> 2]) >>,
-       allOf |-> << Sch([type |-> "object", title |-> "Thing"]) >>,
-       properties |-> << <<"a", Sch([type |-> "object", title |-> "Thing", maxProperties |-> 2])>> >>,
-       patternProperties |-> << <<"^a", Sch([type |-> "object", title |-> "Thing", maxProperties |-> 1])>> >>,
-       itemsT |-> << Sch([type |-> "object", title |-> "Thing", minProperties |-> 3]) >>,
-       additionalItems |-> Sch([type |-> "object", title |-> "Thing", minProperties |-> 4]),
-       contains |-> Sch([type |-> "object", title |-> "Thing", minProperties |-> 5]),
-       additionalProperties |-> Sch([type |-> "object", title |-> "Thing", minProperties |-> 6]),
-       propertyNames |-> Sch([type |-> "object", title |-> "Thing", minProperties |-> 7]),
-       depsS |-> << <<"a", Sch([type |-> "object", title |-> "Thing", minProperties |-> 8])>> >>])
-    @@ ("not" :> Sch([type |-> "object", title |-> "Thing", minProperties |-> 9])),
-  (* two differently named object classes of identical shape in one tree *)
-  Sch([type |-> "object", title |-> "T",
-       properties |-> << <<"a", Sch([type |-> "object", properties |-> << <<"b", Ty("string")>> >>])>>,
-                         <<"b", Sch([type |-> "object", properties |-> << <<"b", Ty("string")>> >>])>> >>])
-}
 InitSeeds == doc \in Seeds /\ budget = SeedLevels
 SeedSpec == InitSeeds /\ [][Next]_vars
 
@@ -121,6 +70,8 @@ Export ==
   IN PrintT(ToJson([doc |-> doc, size |-> DocSize(doc), depth |-> SchemaDepth(doc),
                     parse |-> pk, uns |-> HasUnsupported(doc),
                     elem |-> IF ok THEN e ELSE ElementE,
+                    names |-> IF ok THEN ClassTable(doc) ELSE <<>>,
+                    m09 |-> ok /\ ~NamesOrderIndependent(doc),
                     strip |-> st, stripParse |-> IF IsErr(se) THEN se.name ELSE "ok",
                     allowed |-> allowed, calls |-> calls, np |-> np, dobs |-> dobs,
                     dconv |-> dconv, edef |-> edef,
